@@ -27,6 +27,11 @@ QUICK = ('ZeroDivisionError', 'OverflowError', 'AssertionError', 'AttributeError
          'TypeError', 'ValueError', 'UnicodeDecodeError', 'UserWarning', 'Exception', 're.error', 'UnknownToEveryone')
 
 
+MINI = ('ZeroDivisionError', 'KeyError', 'StopIteration', 'RecursionError', 'OSError', 'TypeError', 'Exception', 're.error',
+        'UnknownToEveryone')
+SAMPLES = {'mini': MINI, 'quick': QUICK, 'all': NAMES}
+
+
 class UnknownToEveryone(Exception):
     """an exception class that no except clause can name"""
 
@@ -75,7 +80,7 @@ def selftest() -> int:
         if not isinstance(e, Exception) or type(e) is not cls_of(n):
             raise AssertionError(n)
         str(e)
-    for n in QUICK:
+    for n in QUICK + MINI:
         if n not in NAMES:
             raise AssertionError(n)
     return len(NAMES)
